@@ -46,7 +46,7 @@ func c02RespondHang(oc *env.OriginCall) env.OriginResp {
 
 type c02Params struct {
 	Ticks   []int64 // clock jumps offered before every clock read (a fetch that takes this long)
-	Hang    bool // second outcome family, location with a sub-second proxy timeout, clients accept gzip
+	Hang    bool    // second outcome family, location with a sub-second proxy timeout, clients accept gzip
 	Name    string
 	Threads int
 	Reqs    int
